@@ -48,10 +48,12 @@ class XmlGenerator(TreeListener):
                 break
         items = []
         for f in ["start", "value"]:
-            val = getattr(tree, f).value
-            if val is None:
+            node = getattr(tree, f)
+            if isinstance(node, ast.Primary) and node.value is None:
                 continue
-            items.append(E("item", E("real", value=str(val)), name=f))
+            # The walker has already built the element of the attribute's expression: a literal gives
+            # <real value=.../>, a signed literal or a parameter expression gives its operator tree.
+            items.append(E("item", self.xml[node], name=f))
 
         for f in ["fixed"]:
             val = getattr(tree, f).value
